@@ -161,14 +161,38 @@ def parse_assumptions(out):
     if cur is not None: res.append(cur)
     return res
 
+def strip_coq_comments(txt):
+    out = []; depth = 0; i = 0; n = len(txt)
+    while i < n:
+        if txt.startswith('(*', i): depth += 1; i += 2; continue
+        if depth and txt.startswith('*)', i): depth -= 1; i += 2; continue
+        if depth == 0: out.append(txt[i])
+        i += 1
+    return ''.join(out)
+
 def grep_gate():
+    """forbidden vernacular anywhere under coq/ (comments excluded), and Variable/Hypothesis/Context declared
+    outside a Section (which would be a global axiom-like declaration)"""
     bad = []
     for f in glob.glob(os.path.join(COQ, '**', '*.v'), recursive=True):
         txt = open(f, errors='replace').read()
-        # strip comments (non-nested is enough for a conservative gate: we only REMOVE text inside (* *) )
-        stripped = re.sub(r'\(\*.*?\*\)', '', txt, flags=re.S)
+        stripped = strip_coq_comments(txt)
         for m in FORBIDDEN.finditer(stripped):
             bad.append('%s: %s' % (os.path.relpath(f, COQ), m.group(0)))
+        stack = []      # ('S'|'M', name)
+        for m in re.finditer(r'(?m)^\s*(?:(?:Local|Global|#\[[^\]]*\])\s+)*(Section|Module\s+Type|Module|End|Variables?|Hypothes[ie]s|Context)\b\s*([\w\']*)', stripped):
+            k, name = m.group(1), m.group(2)
+            if k == 'Section': stack.append(('S', name))
+            elif k.startswith('Module'):
+                # `Module X := Y.` does not open a scope
+                rest = stripped[m.end():m.end() + 200].split('.')[0]
+                if ':=' not in rest: stack.append(('M', name))
+            elif k == 'End':
+                for j in range(len(stack) - 1, -1, -1):
+                    if stack[j][1] == name: del stack[j:]; break
+            else:
+                if not any(t == 'S' for t, _ in stack):
+                    bad.append('%s: %s %s outside a Section' % (os.path.relpath(f, COQ), k, name))
     return bad
 
 def build_coq(plugin, timeout):
